@@ -17,6 +17,7 @@ import (
 	"github.com/nyaruka/goflow/contactql"
 	"github.com/nyaruka/goflow/envs"
 	"github.com/nyaruka/goflow/flows"
+	"github.com/nyaruka/goflow/flows/definition"
 	"github.com/nyaruka/goflow/flows/definition/migrations"
 	"github.com/nyaruka/goflow/flows/engine"
 	"github.com/nyaruka/goflow/flows/translation"
@@ -74,6 +75,13 @@ func richFlow() J {
 			J{"uuid": u("a.cls"), "type": "call_classifier", "classifier": J{"uuid": world.Classifier, "name": "Booking"}, "input": "@input.text", "result_name": "Intent"},
 			J{"uuid": u("a.enter"), "type": "enter_flow", "flow": J{"uuid": world.FlowUUID(1), "name": "Child"}},
 		},
+		"router": J{"type": "switch", "operand": "@results.intent", "result_name": "Intent Split",
+			"cases": []any{
+				J{"uuid": u("case.i1"), "type": "has_intent", "arguments": []any{"book_hotel", "0.1"}, "category_uuid": u("cat.i1")},
+				J{"uuid": u("case.i2"), "type": "has_top_intent", "arguments": []any{"book_flight", "0.1"}, "category_uuid": u("cat.i1")},
+			},
+			"categories":            []any{J{"uuid": u("cat.i1"), "name": "Intent", "exit_uuid": world.ExitUUID(f, 2, 0)}, J{"uuid": u("cat.i2"), "name": "Other", "exit_uuid": world.ExitUUID(f, 2, 0)}},
+			"default_category_uuid": u("cat.i2")},
 		"exits": []any{J{"uuid": world.ExitUUID(f, 2, 0)}}}
 	loc := J{
 		"fra": J{
@@ -299,6 +307,117 @@ func collectUUIDs(v any, mapping map[uuids.UUID]uuids.UUID) {
 	}
 }
 
+// addLanguages gives every translation dictionary (an object with an "eng" or "base" string member)
+// two more languages, so that legacy migrations iterate over several languages.
+func addLanguages(v any) any {
+	switch t := v.(type) {
+	case map[string]any:
+		for _, base := range []string{"eng", "base"} {
+			if sv, ok := t[base].(string); ok {
+				if _, has := t["fra"]; !has {
+					t["fra"] = sv + " (fra)"
+				}
+				if _, has := t["spa"]; !has {
+					t["spa"] = sv + " (spa)"
+				}
+			}
+		}
+		for k, x := range t {
+			t[k] = addLanguages(x)
+		}
+	case []any:
+		for i, x := range t {
+			t[i] = addLanguages(x)
+		}
+	}
+	return v
+}
+
+// migrationScenarios: every "original" definition of the repository's migration test data, and
+// every legacy flow of the runner test data with two extra translation languages, migrated to latest
+// and put through the flow APIs.
+func migrationScenarios(repo string) []Scenario {
+	var out []Scenario
+	run := func(name string, defs []json.RawMessage) {
+		out = append(out, Scenario{Name: name, Run: func() (string, error) {
+			world.Reset()
+			var sb strings.Builder
+			sa, _, err := world.BuildAssets(world.BaseAssets())
+			if err != nil {
+				return "", err
+			}
+			for i, raw := range defs {
+				migrated, err := migrations.MigrateToLatest(raw, migrations.DefaultConfig)
+				if err != nil {
+					sb.WriteString(fmt.Sprintf("\nDEF %d MIGRATE ERR %v", i, err))
+					continue
+				}
+				sb.WriteString(fmt.Sprintf("\nDEF %d MIGRATED:", i))
+				sb.Write(migrated)
+				var any map[string]any
+				mapping := map[uuids.UUID]uuids.UUID{}
+				if json.Unmarshal(migrated, &any) == nil {
+					collectUUIDs(any, mapping)
+				}
+				if cloned, err := migrations.Clone(migrated, mapping); err == nil {
+					sb.WriteString("\nCLONED:")
+					sb.Write(cloned)
+				}
+				fl, err := definition.ReadFlow(migrated, migrations.DefaultConfig)
+				if err != nil {
+					sb.WriteString(fmt.Sprintf("\nDEF %d READ ERR %v", i, err))
+					continue
+				}
+				flowAPIs(sa, fl, &sb)
+			}
+			return sb.String(), nil
+		}})
+	}
+	files, _ := filepath.Glob(filepath.Join(repo, "flows/definition/migrations/testdata/migrations/*.json"))
+	sort.Strings(files)
+	for _, file := range files {
+		b, err := os.ReadFile(file)
+		if err != nil {
+			continue
+		}
+		var cases []struct {
+			Original json.RawMessage `json:"original"`
+		}
+		if json.Unmarshal(b, &cases) != nil {
+			continue
+		}
+		var defs []json.RawMessage
+		for _, c := range cases {
+			defs = append(defs, c.Original)
+		}
+		run("migration-testdata:"+filepath.Base(file), defs)
+	}
+	legacy, _ := filepath.Glob(filepath.Join(repo, "test/testdata/runner/legacy_*.json"))
+	sort.Strings(legacy)
+	for _, file := range legacy {
+		if strings.Contains(filepath.Base(file), ".test") {
+			continue
+		}
+		b, err := os.ReadFile(file)
+		if err != nil {
+			continue
+		}
+		var doc struct {
+			Flows []any `json:"flows"`
+		}
+		if json.Unmarshal(b, &doc) != nil {
+			continue
+		}
+		var defs []json.RawMessage
+		for _, f := range doc.Flows {
+			nb, _ := json.Marshal(addLanguages(f))
+			defs = append(defs, nb)
+		}
+		run("legacy-multilang:"+filepath.Base(file), defs)
+	}
+	return out
+}
+
 // Scenarios lists all scenarios.
 func Scenarios(repo string) []Scenario {
 	var out []Scenario
@@ -338,5 +457,6 @@ func Scenarios(repo string) []Scenario {
 		}
 	}
 	out = append(out, fileScenarios(repo)...)
+	out = append(out, migrationScenarios(repo)...)
 	return out
 }
